@@ -350,6 +350,24 @@ SameTreeUpToShift(a, b, j) ==
     /\ a.pred = b.pred
     /\ a.predQ = b.predQ
 
+(* Near overflow (features times 2^1023 in f64 / 2^127 in f32: every value still finite, the  *)
+(* sum of two values not): a midpoint cannot be formed there, so the exact threshold relation  *)
+(* is not demanded -- any threshold that separates the same rows is as good.  What must be      *)
+(* unchanged is the tree as a partition: shape, split features, leaf outputs and the            *)
+(* predictions on the training rows.  (The scaled fit is also judged on its own by TreeVerdict: *)
+(* a node that silently stays a leaf because its threshold became infinite fails completeness.) *)
+NearOverflow(prec, shift) == (prec = "f64" /\ shift >= 1020) \/ (prec = "f32" /\ shift >= 124)
+
+SameShape(a, b) ==
+    /\ Len(a.nodes) = Len(b.nodes)
+    /\ \A k \in 1..Len(a.nodes) :
+          LET u == a.nodes[k]
+              w == b.nodes[k]
+          IN  /\ u.t = w.t /\ u.fc = w.fc
+              /\ IsInternal(u) => u.f = w.f
+              /\ IsLeaf(u) => u.ob = w.ob
+    /\ a.pred = b.pred
+
 (***************************************************************************)
 (* 7. The sorting primitive the growth relies on: quick_argsort_mut returns *)
 (* a permutation of the indices that sorts the values and leaves the       *)
